@@ -242,6 +242,81 @@ def stream_machine(ctx, n, length, name="buffer-and-flushers"):
                 ctx.spec_failure(case, {"stored": want, "appended": allapp}, "the store holds a command that was not appended (invention/duplication/reordering)", None)
 
 
+# ------------------------------------------------------------------ stream 1b: flusher threads that start late (hook)
+def stream_late_flushers(ctx, n, name="late-flusher-schedules"):
+    """the order of the flush queue must be the order in which flush() was CALLED, however late the flusher threads are
+    scheduled: the hook point at JsonHistoryFlusher.run entry holds chosen flusher threads back"""
+    import threading
+
+    common.setup_repo_imports()
+    import xonsh._verif_hooks as vh
+    import xonsh.history.json as hj
+
+    ctx.stream_rule(
+        name,
+        "2-4 buffers are flushed back to back on a real JsonHistory while the hook point at JsonHistoryFlusher.run entry holds a "
+        "seeded subset of the flusher threads back for 50-150 ms (threads scheduled late); optionally an indexed read is issued "
+        "right after a flush(); afterwards the on-disk store must hold every command in append order and the read must have "
+        "returned the right command; non-trivial = at least one flusher delayed while a later one was free to run",
+    )
+    if not vh.ENABLED:
+        raise common.InfraError("XONSH_XONSH_VERIF hooks are not enabled")
+    for k in range(n):
+        root = str(common.scratch_root() / f"c12l-{uuid.uuid4().hex[:8]}")
+        os.makedirs(root)
+        _env(root)
+        hist = hj.JsonHistory(filename=os.path.join(root, "h.json"), buffersize=100, gc=False, ts=[0.0, None], locked=True, env={})
+        nflush = ctx.rng.choice([2, 3, 4])
+        delayed = {i for i in range(nflush) if ctx.rng.random() < 0.5}
+        order = []
+        lock = threading.Lock()
+
+        def plan(name_, kw, delayed=delayed, order=order, lock=lock):
+            if name_ == "json.flusher.run":
+                with lock:
+                    idx = len(order)
+                    order.append(kw["flusher"])
+                if idx in delayed:
+                    import time as _t
+
+                    _t.sleep(0.05 + 0.05 * (idx % 3))
+
+        vh.install(plan)
+        expected, read_results = [], []
+        try:
+            c = 0
+            flushers = []
+            for i in range(nflush):
+                for _ in range(ctx.rng.choice([1, 2])):
+                    c += 1
+                    hist.append({"inp": f"c{c}", "rtn": 0, "ts": [float(c), c + 0.5], "cwd": "/"})
+                    expected.append(c)
+                hf = hist.flush()
+                flushers.append(hf)
+                if ctx.rng.random() < 0.4:
+                    idx = ctx.rng.randrange(len(expected))
+                    try:
+                        read_results.append((idx, int(hist.inps[idx][1:])))
+                    except Exception as e:  # noqa: BLE001
+                        read_results.append((idx, type(e).__name__))
+            for hf in flushers:
+                if hf is not None:
+                    hf.join(30)
+        finally:
+            vh.install(None)
+        with open(hist.filename, encoding="utf-8") as f:
+            disk = [int(x["inp"][1:]) for x in json.loads(f.read())["data"]["cmds"]]
+        nontriv = bool(delayed) and len(delayed) < nflush
+        case = {"stream": name, "flushes": nflush, "delayed_flushers": sorted(delayed), "commands": expected}
+        ctx.case(name, repr(case) + str(k), nontriv, case)
+        if disk != expected:
+            ctx.spec_failure(case, {"on_disk": disk, "appended": expected}, "commands reached the store out of append order (or were lost) when flusher threads were scheduled late", None)
+        for idx, got in read_results:
+            if got != expected[idx]:
+                ctx.spec_failure(case, {"index": idx, "got": got, "want": expected[idx]}, "an indexed read issued right after flush() did not return the appended command", None)
+        shutil.rmtree(root, ignore_errors=True)
+
+
 # ------------------------------------------------------------------ stream 2: verbatim text, JSON and SQLite
 def stream_texts(ctx, n, name="verbatim-texts"):
     ctx.stream_rule(
@@ -273,14 +348,19 @@ def stream_texts(ctx, n, name="verbatim-texts"):
             if hf is not None and ctx.rng.random() < 0.5:
                 hf.join(30)
         inps = [c["inp"] for c in cmds]
-        got = {
-            "index": [hist.inps[i] for i in range(len(hist))],
-            "negative": [hist.inps[-1 - i] for i in range(len(hist))][::-1],
-            "slice": list(hist.inps[:]),
-            "rtns": list(hist.rtns[:]),
-            "tss": [list(x) for x in hist.tss[:]],
-            "items": [it["inp"] for it in hist.items()],
-        }
+        try:
+            got = {
+                "index": [hist.inps[i] for i in range(len(hist))],
+                "negative": [hist.inps[-1 - i] for i in range(len(hist))][::-1],
+                "slice": list(hist.inps[:]),
+                "rtns": list(hist.rtns[:]),
+                "tss": [list(x) for x in hist.tss[:]],
+                "items": [it["inp"] for it in hist.items()],
+            }
+        except Exception as e:  # noqa: BLE001
+            ctx.spec_failure(case, {"raised": f"{type(e).__name__}: {e}"[:300]}, "reading the JSON history back raised", None)
+            shutil.rmtree(root, ignore_errors=True)
+            continue
         want = {"index": inps, "negative": inps, "slice": inps, "rtns": [c["rtn"] for c in cmds], "tss": [c["ts"] for c in cmds], "items": [s.rstrip() for s in inps]}
         for how in want:
             if got[how] != want[how] or len(hist) != len(cmds):
@@ -291,11 +371,16 @@ def stream_texts(ctx, n, name="verbatim-texts"):
             raw = f.read()
         if not raw.isascii():
             ctx.spec_failure(case, {}, "the JSON store is not pure ASCII: character offsets of its index are not byte offsets", None)
-        with open(hist.filename, newline="\n", encoding="utf-8") as f:
-            lj = xlj.LazyJSON(f, reopen=False)
-            disk = [lj["cmds"][i]["inp"] for i in range(len(lj["cmds"]))]
-            disk_rtn = [lj["cmds"][i]["rtn"] for i in range(len(lj["cmds"]))]
-            whole = lj.load()
+        try:
+            with open(hist.filename, newline="\n", encoding="utf-8") as f:
+                lj = xlj.LazyJSON(f, reopen=False)
+                disk = [lj["cmds"][i]["inp"] for i in range(len(lj["cmds"]))]
+                disk_rtn = [lj["cmds"][i]["rtn"] for i in range(len(lj["cmds"]))]
+                whole = lj.load()
+        except Exception as e:  # noqa: BLE001
+            ctx.spec_failure(case, {"raised": f"{type(e).__name__}: {e}"[:300]}, "the on-disk JSON store cannot be read through its embedded index", None)
+            shutil.rmtree(root, ignore_errors=True)
+            continue
         if disk != inps or disk_rtn != [c["rtn"] for c in cmds] or [c["inp"] for c in whole["cmds"]] != inps:
             ctx.spec_failure(case, {"disk": disk, "want": inps}, "the on-disk JSON store (through its embedded index) does not hold the appended commands verbatim", None)
         # ---- SQLite
@@ -474,6 +559,7 @@ def run(ctx):
     )
     replay_known(ctx)
     stream_machine(ctx, ctx.n(150, 2500), ctx.n(22, 30))
+    stream_late_flushers(ctx, ctx.n(25, 300))
     stream_texts(ctx, ctx.n(40, 500))
     stream_index(ctx, ctx.n(300, 5000))
 
